@@ -19,7 +19,8 @@ type c10Scenario struct {
 	InitLen int        `json:"init_len"`
 	FIFO    bool       `json:"fifo"`
 	Cap     int        `json:"cap"`
-	Progs   [][]string `json:"programs"` // per thread: operation names
+	Progs   [][]string `json:"programs"`              // per thread: operation names
+	Policy  bool       `json:"push_policy,omitempty"` // an accept-everything push policy is installed (Push takes the policy path)
 }
 
 func (sc c10Scenario) String() string {
@@ -27,7 +28,11 @@ func (sc c10Scenario) String() string {
 	for _, pr := range sc.Progs {
 		p = append(p, strings.Join(pr, ";"))
 	}
-	return fmt.Sprintf("len=%d fifo=%v cap=%d {%s}", sc.InitLen, sc.FIFO, sc.Cap, strings.Join(p, " || "))
+	pol := ""
+	if sc.Policy {
+		pol = " push-policy"
+	}
+	return fmt.Sprintf("len=%d fifo=%v cap=%d%s {%s}", sc.InitLen, sc.FIFO, sc.Cap, pol, strings.Join(p, " || "))
 }
 
 func (sc c10Scenario) opSig() string {
@@ -90,6 +95,9 @@ func (sc c10Scenario) mk() stackage.Stack {
 	}
 	s.Push(sc.initial()...)
 	s.SetMutex()
+	if sc.Policy {
+		s.SetPushPolicy(func(...any) error { return nil })
+	}
 	return s
 }
 
@@ -262,6 +270,15 @@ func c10Scenarios(c *Ctx) (out []c10Scenario, bounds []int) {
 				add(cf, -1, []string{a}, []string{b})
 			}
 		}
+	}
+	// the push-policy path of Push (a separate append loop): a batch of two against every mutator
+	for _, cf := range cfgs(2) {
+		for _, b := range ops {
+			out = append(out, c10Scenario{InitLen: cf[0], FIFO: cf[1] == 1, Cap: cf[2], Progs: [][]string{{"Push2"}, {b}}, Policy: true})
+			bounds = append(bounds, -1)
+		}
+		out = append(out, c10Scenario{InitLen: cf[0], FIFO: cf[1] == 1, Cap: cf[2], Progs: [][]string{{"Push2"}, {"Push2"}, {"Pop"}}, Policy: true})
+		bounds = append(bounds, -1)
 	}
 	if c.Quick() {
 		// a slice of 2x2 and 3x1 so that the per-change run also sees longer programs
